@@ -350,6 +350,35 @@ func runC13(r *run) {
 					if obs2 != baseline || len(problems2) > 0 {
 						r.violate(violation{What: "after the destinations recovered the record was not delivered normally", Input: input, Expected: baseline, Actual: obs2})
 					}
+					// a history of three calls under one schedule that runs across all of them (the attempt counter is
+					// not reset between the calls): the model's runCalls, to which the history theorems refer
+					if !wide && (sched%7 == 3 || sched == 1<<k-1) {
+						hs := []int{sev, sevs[(sched/7)%len(sevs)], sev}
+						hbits := bits + bits[:3]
+						log.take()
+						log.n = 0
+						log.fails = func(n int) bool { return n < len(hbits) && hbits[n] == '1' }
+						line := fmt.Sprintf("C13 calls %s", hbits)
+						var outs []string
+						for hi, hsev := range hs {
+							hmsg := fmt.Sprintf("history-%d-%d", sched, hi)
+							l.Logit(ctx, slog.Level(hsev), hmsg)
+							o, probs := c13Obs(log.take(), hmsg)
+							outs = append(outs, o)
+							line += fmt.Sprintf(" %d", hsev)
+							if n := strings.Count(o, "|") + 1; o != "-" && n > 2 {
+								r.violate(violation{What: "more than one diagnostic for one failing record within a history of calls", Input: map[string]any{"case": input, "history": hs, "fail_schedule": hbits}, Actual: o})
+							}
+							for _, p := range probs {
+								r.violate(violation{What: p + " (within a history of calls)", Input: map[string]any{"case": input, "history": hs, "fail_schedule": hbits}, Actual: o})
+							}
+						}
+						r.emit(line, strings.Join(outs, ";"))
+						r.count("histories")
+						log.fails = nil
+						log.n = 0
+						log.take()
+					}
 					if sched == 5 && cidx < 3 && sev == 4 {
 						r.sample(map[string]any{"case": input, "observed": obs, "after_recovery": obs2})
 					}
